@@ -198,6 +198,9 @@ class FakeSock:
         r = self.recvs.pop(0)
         if r[0] == "d":
             d = bytes(r[1])
+            if bs is not None and 0 < bs < len(d):   # a short read: the rest stays in the kernel
+                self.recvs.insert(0, ("d", d[bs:]))
+                d = d[:bs]
             self.kdel.extend(d)
             self.calls.append(("recv", len(d)))
             return d
@@ -306,11 +309,73 @@ def nowrap():
         yield
 
 
+WL_MODES = ("raw", "std", "samed", "file", "ctx")
+_WL_ENTRY = None
+
+
+class _WL:
+    """a WireLog in one of its configurations.  raw: separate in-memory logs holding only the data bytes;
+    std: separate logs, default format; samed: one shared in-memory log; file: temporary files on disk;
+    ctx: obtained through the wiring.openWL context manager (temporary files, one shared log)"""
+
+    def __init__(self, mode):
+        from hio.core import wiring
+        self.mode = mode
+        self._cm = None
+        if mode == "raw":
+            self.wl = wiring.WireLog(samed=False, filed=False, fmt=b'%(data)b')
+            self.wl.reopen()
+        elif mode == "std":
+            self.wl = wiring.WireLog(samed=False, filed=False)
+            self.wl.reopen()
+        elif mode == "samed":
+            self.wl = wiring.WireLog(samed=True, filed=False)
+            self.wl.reopen()
+        elif mode == "file":
+            self.wl = wiring.WireLog(samed=False, filed=True, temp=True, name="verif")
+            self.wl.reopen()
+        elif mode == "ctx":
+            self._cm = wiring.openWL(name="verif", temp=True, samed=True, filed=True)
+            self.wl = self._cm.__enter__()
+        else:
+            raise core.Infra(f"bad wire log mode {mode!r}")
+
+    def read(self, who=None):
+        """(tx bytes, rx bytes) recorded, in order; for the formatted modes the log must parse completely into entries
+        `\\n<Rx|Tx> <who>:\\n<data>\\n` (data restricted to [a-z] by the generators) and `who` must be the expected address"""
+        import re
+        tx, rx = bytes(self.wl.readTx() or b""), bytes(self.wl.readRx() or b"")
+        if self.mode == "raw":
+            return tx, rx
+        logs = [tx] if self.mode in ("samed", "ctx") else [tx, rx]
+        outs = {b"Tx": b"", b"Rx": b""}
+        for i, log in enumerate(logs):
+            pos = 0
+            for m in re.finditer(rb"\n(Rx|Tx) ([^\n]*):\n([a-z]*)\n", log):
+                if m.start() != pos:
+                    return b"?unparsable", b"?unparsable"
+                pos = m.end()
+                if who is not None and m.group(2) != str(who).encode():
+                    return b"?who", b"?who"
+                if self.mode not in ("samed", "ctx") and m.group(1) != (b"Tx", b"Rx")[i]:
+                    return b"?wrong-log", b"?wrong-log"
+                outs[m.group(1)] += m.group(3)
+            if pos != len(log):
+                return b"?unparsable", b"?unparsable"
+        return outs[b"Tx"], outs[b"Rx"]
+
+    def close(self):
+        try:
+            if self._cm is not None:
+                self._cm.__exit__(None, None, None)
+            else:
+                self.wl.close(clear=True) if self.mode == "file" else self.wl.close()
+        except Exception:
+            pass
+
+
 def make_wl():
-    from hio.core import wiring
-    wl = wiring.WireLog(samed=False, filed=False, fmt=b'%(data)b')
-    wl.reopen()
-    return wl
+    return _WL("raw").wl
 
 
 def wl_read(wl):
@@ -461,24 +526,53 @@ def _status(fn):
     return "ok"
 
 
+def chop(recvs, bs):
+    """the receive script as the kernel hands it out when every read is limited to bs bytes"""
+    out = []
+    for r in recvs:
+        if r[0] == "d" and len(r[1]) > bs:
+            out += [("d", r[1][i:i + bs]) for i in range(0, len(r[1]), bs)]
+        else:
+            out.append(tuple(r))
+    return out
+
+
 def run_conn(case, with_hards=False):
-    """case = (kind, wl, ops, sends, recvs); ops: ("tx", bytes) | ("ss",) | ("sr",) | ("svc",) | ("rst",) peer resets
-    observation = (steps, final): steps[i] = (status, |kacc|, |txbs|, |rxbs|, cutoff),
+    """case = (kind, wl, ops, sends, recvs[, bs]); wl: False | True (= "raw") | one of WL_MODES;
+    ops: ("tx", bytes) | ("ss",) serviceSends | ("sr",) serviceReceives | ("sro",) serviceReceiveOnce | ("clr",) clearRxbs
+         | ("svc",) | ("rst",) peer resets | ("recv1",) the application calls receive() itself | ("send1", bytes) ... send(data)
+    observation = (steps, final): steps[i] = (status, |kacc|, |txbs|, |rxbs|, cutoff, returned value of a direct call or None),
     final = (txbs, rxbs, kacc, kdel, wireTx|None, wireRx|None, cutoff)"""
     kind, use_wl, ops, sends, recvs = case[:5]
     bs = case[5] if len(case) > 5 else None   # the object's .bs buffer size (None = the class default, 8096)
-    wl = make_wl() if use_wl else None
+    mode = "raw" if use_wl is True else use_wl
+    W = _WL(mode) if mode else None
+    wl = W.wl if W else None
     try:
         obj, s = make_conn(kind, sends, recvs, [("ok",)] if is_tls(kind) else [], wl=wl, bs=bs)
         steps = []
         hards_at = []
         for op in ops:
+            ret = [None]
             if op[0] == "tx":
                 st = _status(lambda: obj.tx(op[1]))
             elif op[0] == "ss":
                 st = _status(obj.serviceSends)
             elif op[0] == "sr":
                 st = _status(obj.serviceReceives)
+            elif op[0] == "sro":
+                st = _status(obj.serviceReceiveOnce)
+            elif op[0] == "clr":
+                st = _status(obj.clearRxbs)
+            elif op[0] == "recv1":
+                def f():
+                    r = obj.receive()
+                    ret[0] = None if r is None else bytes(r)
+                st = _status(f)
+            elif op[0] == "send1":
+                def f():
+                    ret[0] = int(obj.send(op[1]))
+                st = _status(f)
             elif op[0] == "rst":   # the peer resets: whatever is still scripted gets delivered, address calls fail from now on
                 s.reset = True
                 st = "ok"
@@ -492,16 +586,20 @@ def run_conn(case, with_hards=False):
                     st = _status(both)
             else:
                 raise core.Infra(f"bad op {op!r}")
-            steps.append((st, len(s.kacc), len(obj.txbs), len(obj.rxbs), bool(obj.cutoff)))
+            steps.append((st, len(s.kacc), len(obj.txbs), len(obj.rxbs), bool(obj.cutoff), ret[0]))
             hards_at.append(tuple(s.hards))
-        wt, wr = wl_read(wl) if wl else (None, None)
+        if W:
+            who = obj.ha if kind.startswith("client") else obj.ca
+            wt, wr = W.read(who)
+        else:
+            wt, wr = None, None
         final = (bytes(obj.txbs), bytes(obj.rxbs), bytes(s.kacc), bytes(s.kdel), wt, wr, bool(obj.cutoff))
         if with_hards:
             return (tuple(steps), final, tuple(hards_at))
         return (tuple(steps), final)
     finally:
-        if wl:
-            wl.close()
+        if W:
+            W.close()
 
 
 # --------------------------------------------------------------------------
@@ -521,7 +619,8 @@ def run_server(case):
        ("svc",) | ("tx", ca, bytes) | ("rm", ca) | ("close",) | ("reopen",)
     observation = tuple of (status, socks) per op, socks = per socket in creation order:
        ("listen", closed) | (where, cutoff, connected, aborted, rxbs, |txbs|, kacc, closed), where in ix|cx|gone"""
-    tls, ops = case
+    tls, ops = case[:2]
+    via = case[2] if len(case) > 2 else "direct"   # direct | doer (serving.ServerDoer enter/recur/exit) | ctx (serving.openServer)
     clienting, serving, TClientTls, TRemoterTls = classes()
     world = World(strict_peer=True)
     rms = {}
@@ -544,13 +643,25 @@ def run_server(case):
         if self.cs is not None:
             rms[self.cs.sid] = self
     with patched(serving, socket=mod), nowrap(), patched(serving.Remoter, __init__=init):
+        kw = dict(host="127.0.0.1", port=PORT)
         if tls:
-            server = serving.ServerTls(host="127.0.0.1", port=PORT, context=shared_context())
+            kw["context"] = shared_context()
+        cls = serving.ServerTls if tls else serving.Server
+        cm = doer = None
+        if via == "ctx":
+            cm = serving.openServer(cls=cls, **kw)
+            server = cm.__enter__()
+            st0 = "ok" if server.opened else "openfail"
+            ops = list(ops) + [("close",)]     # leaving the with block
         else:
-            server = serving.Server(host="127.0.0.1", port=PORT)
-        st0 = "ok" if server.reopen() else "openfail"
-        pending = []
-        for op in ops:
+            server = cls(**kw)
+            if via == "doer":
+                doer = serving.ServerDoer(server=server)
+                st0 = _status(doer.enter)
+            else:
+                st0 = "ok" if server.reopen() else "openfail"
+        nops = len(ops)
+        for iop, op in enumerate(ops):
             k = op[0]
             if k == "conn":
                 _, ca, sends, recvs, hs = op
@@ -562,21 +673,24 @@ def run_server(case):
                     listeners[-1].accepts.append((_ca(op[1]), [], [], [], True))
                 st = "ok"
             elif k == "svc":
-                st = _status(server.service)
-            elif k == "tx":
-                if _ca(op[1]) in server.ixes:
-                    st = _status(lambda: server.transmitIx(op[2], _ca(op[1])))
-                else:
-                    st = "skip"
+                st = _status((lambda: doer.recur(0.0)) if doer else server.service)
+            elif k == "tx":       # an address the server does not know is a ValueError, nothing else changes
+                st = _status(lambda: server.transmitIx(op[2], _ca(op[1])))
             elif k == "rm":
-                if _ca(op[1]) in server.ixes:
-                    st = _status(lambda: server.removeIx(_ca(op[1])))
-                else:
-                    st = "skip"
+                st = _status(lambda: server.removeIx(_ca(op[1])))
+            elif k == "rxix":
+                st = _status(lambda: server.serviceReceivesIx(_ca(op[1])))
+            elif k == "closeix":
+                st = _status(lambda: server.closeIx(_ca(op[1])))
+            elif k == "closeall":
+                st = _status(server.closeAllIx)
             elif k == "close":
-                st = _status(server.close)
+                if cm is not None and iop == nops - 1:
+                    st = _status(lambda: cm.__exit__(None, None, None))
+                else:
+                    st = _status(doer.exit if doer else server.close)
             elif k == "reopen":
-                st = _status(server.reopen)
+                st = _status(doer.enter if doer else server.reopen)
             else:
                 raise core.Infra(f"bad op {op!r}")
             snap = []
@@ -602,15 +716,20 @@ def run_server(case):
 def run_client(case):
     """C11 client part. case = (tls, ops) or (tls, reconnectable, tymeout, ops) (tymeout and ticks in UNITs of virtual tyme);
     ops: ("reopen",) | ("close",) | ("tick", d) | ("connect", rc, hsresp|None): next connect_ex returns rc (a handshake
-    response may be queued on the current socket), then serviceConnect()
-    observation per op: (status, open socket ids, id of client.cs or None, connected)"""
+    response may be queued on the current socket), then serviceConnect() | ("service", rc, hsresp|None): the same but a full
+    service() pass (connect, sends, receives) | ("feed", sends, recvs): kernel responses queued on the current socket | ("tx", bytes)
+    observation per op: (status, open socket ids, id of client.cs or None, connected, cutoff, |rxbs|, |txbs|)"""
+    via = "direct"
+    if len(case) == 5:
+        via, case = case[4], case[:4]
     if len(case) == 2:
         case = (case[0], False, 0, case[1])
     tls, recon, tmo, ops = case
-    return _run_client(tls, recon, tmo, ops)
+    return _run_client(tls, recon, tmo, ops, via)
 
 
-def _run_client(tls, recon, tmo, ops):
+def _run_client(tls, recon, tmo, ops, via="direct"):
+    """via: direct | doer (clienting.ClientDoer enter/recur/exit) | ctx (clienting.openClient: reopen on entry, close on exit)"""
     from hio.base import tyming
     tymist = tyming.Tymist(tyme=0.0, tock=UNIT)
     clienting, serving, TClientTls, TRemoterTls = classes()
@@ -630,29 +749,53 @@ def _run_client(tls, recon, tmo, ops):
         return s
     mod.socket = mk
     with patched(clienting, socket=mod), nowrap():
+        kw = dict(ha=("127.0.0.1", PORT), tymth=tymist.tymen(), reconnectable=bool(recon), tymeout=tmo * UNIT)
         if tls:
-            obj = TClientTls(ha=("127.0.0.1", PORT), context=shared_client_context(), certedhost="localhost",
-                             tymth=tymist.tymen(), reconnectable=bool(recon), tymeout=tmo * UNIT)
+            kw.update(context=shared_client_context(), certedhost="localhost")
+        cls = TClientTls if tls else clienting.Client
+        cm = doer = None
+        if via == "ctx":
+            cm = clienting.openClient(cls=cls, **kw)
+            obj = cm.__enter__()
+            ops = [("reopen*",)] + list(ops) + [("close",)]
         else:
-            obj = clienting.Client(ha=("127.0.0.1", PORT), tymth=tymist.tymen(), reconnectable=bool(recon), tymeout=tmo * UNIT)
-        for op in ops:
+            obj = cls(**kw)
+            if via == "doer":
+                doer = clienting.ClientDoer(client=obj)
+        nops = len(ops)
+        for iop, op in enumerate(ops):
             k = op[0]
-            if k == "tick":
+            if k == "reopen*":     # already done by the context manager
+                st = "ok"
+            elif k == "tick":
                 tymist.tick(tock=op[1] * UNIT)
                 st = "ok"
+            elif k == "wind":     # re-wound onto a tymist whose tyme is op[1]
+                tymist = tyming.Tymist(tyme=op[1] * UNIT, tock=UNIT)
+                st = _status(lambda: obj.wind(tymist.tymen()))
             elif k == "reopen":
-                st = _status(obj.reopen)
+                st = _status(doer.enter if doer else obj.reopen)
             elif k == "close":
-                st = _status(obj.close)
-            elif k == "connect":
+                if cm is not None and iop == nops - 1:
+                    st = _status(lambda: cm.__exit__(None, None, None))
+                else:
+                    st = _status(doer.exit if doer else obj.close)
+            elif k in ("connect", "service"):
                 nxt["rc"] = op[1]
                 if obj.cs is not None and len(op) > 2 and op[2] is not None:
                     obj.cs.hs.append(tuple(op[2]))
-                st = _status(obj.serviceConnect)
+                st = _status(obj.serviceConnect if k == "connect" else ((lambda: doer.recur(0.0)) if doer else obj.service))
+            elif k == "feed":   # what the kernel will answer on the current socket
+                if obj.cs is not None:
+                    obj.cs.sends += [tuple(x) for x in op[1]]
+                    obj.cs.recvs += [tuple(x) for x in op[2]]
+                st = "ok"
+            elif k == "tx":
+                st = _status(lambda: obj.tx(op[1]))
             else:
                 raise core.Infra(f"bad op {op!r}")
             cur = obj.cs.sid if obj.cs is not None else None
-            out.append((st, tuple(world.open_ids()), cur, bool(obj.connected)))
+            out.append((st, tuple(world.open_ids()), cur, bool(obj.connected), bool(obj.cutoff), len(obj.rxbs), len(obj.txbs)))
     return tuple(out)
 
 
@@ -684,8 +827,9 @@ def resp_len():
     return _RESP_LEN
 
 
-def run_idle(case):
-    """case = (tls, tymeout, ops) with tymeout and tick amounts in UNITs; ops:
+def run_idle(case, UNIT=UNIT):
+    """case = (tls, tymeout, ops) with tymeout and tick amounts in UNITs (UNIT = 1/8 s, or a non-dyadic 0.1 s); ops:
+       ("settmo", t) the tcp server's .tymeout attribute is changed: connections accepted from now on get it
        ("conn", ca) | ("tick", d) | ("data", ca, n) n pad bytes of a never-finished request arrive
        ("req", ca) a complete persistent HTTP/1.1 request arrives | ("req10", ca) a complete non-persistent HTTP/1.0 request
        ("cap", ca, k) from now on the connection's socket takes k bytes per send (0 = would block)
@@ -730,6 +874,8 @@ def run_idle(case):
             elif k == "wind":
                 tymist = tyming.Tymist(tyme=op[1] * UNIT, tock=UNIT)
                 st = _status(lambda: server.wind(tymist.tymen()))
+            elif k == "settmo":
+                servant.tymeout = op[1] * UNIT
             elif k == "cap":
                 s = sock_of(op[1])
                 if s is not None and not s.closed:
@@ -891,10 +1037,14 @@ def gen_server_ops(rng, tls, focus, tier="quick"):
             if rng.random() < 0.2:
                 ops.append(("dconn", rng.choice([ca, ncas + 1])))
             ops.append(mkconn(ca))
+        elif rng.random() < 0.3:
+            ops.append(("rxix", rng.randrange(1, ncas + 2)))     # serviceReceivesIx, possibly for an unknown address
         elif focus == "life":
             k = rng.random()
-            if k < 0.4:
+            if k < 0.3:
                 ops.append(("rm", rng.randrange(1, ncas + 1)))
+            elif k < 0.4:
+                ops.append(rng.choice([("closeix", rng.randrange(1, ncas + 2)), ("closeall",)]))
             elif k < 0.6:
                 ops.append(("close",))
             elif k < 0.8:
@@ -952,6 +1102,12 @@ def with_retries(fn, tries=4):
             return fn()
         except Retry as ex:
             last = ex
+        except core.Infra:
+            raise
+        except Exception as ex:
+            # whatever the code under test raised where the scenario did not expect it is an OBSERVATION (the oracles
+            # flag it), never a crash of the harness
+            return ("EXC", type(ex).__name__)
     raise core.Infra(f"real-socket scenario could not get its ports/descriptors: {last}")
 
 
@@ -1395,7 +1551,8 @@ def run_real_client(case):
     """C11, client over real sockets.  case = ("realcli", tls, mode, tymeout, ops);  mode: 'refused' (target port bound but not
     listening), 'hang' (listener whose accept queue is full: connects stay in progress), 'mute' (a listener that never
     accept()s nor handshakes: TCP connects, a TLS handshake never completes).  reconnectable=True, virtual tyme.
-    ops: ("tick", d) | ("svc",) serviceConnect | ("reopen",) | ("close",).
+    ops: ("tick", d) | ("svc",) serviceConnect | ("io",) service | ("tx",) | ("peerfin",) / ("peerrst",) the far side (mode mute)
+    accepts, sends 3 bytes and closes gracefully / resets | ("reopen",) | ("close",).
     The harness keeps every socket object the client ever held.
     observation per op: (status, number of sockets ever held, how many of them other than client.cs are still open)"""
     _, tls, mode, tmo, ops = case
@@ -1445,6 +1602,22 @@ def run_real_client(case):
                     st = "ok"
                 elif k == "svc":
                     st = _status(client.serviceConnect)
+                elif k == "io":      # a full service pass: connect, sends, receives
+                    if client.cs is not None and client.connected:
+                        wait_readable(client.cs, 0.02)
+                    st = _status(client.service)
+                elif k == "tx":
+                    st = _status(lambda: client.tx(b"ping"))
+                elif k in ("peerfin", "peerrst"):   # the far side sends a few bytes and closes gracefully / resets
+                    st = "ok"
+                    if mode == "mute":
+                        try:
+                            lst.settimeout(0.05)
+                            p, _ = lst.accept()
+                            p.send(b"bye")
+                            (p.close if k == "peerfin" else (lambda: rst_close(p)))()
+                        except OSError:
+                            pass
                 elif k == "reopen":
                     st = _status(client.reopen)
                 elif k == "close":
